@@ -215,6 +215,16 @@ func convertTo(mappings map[string]any, typ reflect.Type) (any, error) {
 func assignOne(destValue reflect.Value, taken any, to string) (reflect.Value, error) {
 	if len(to) == 0 { // assign to output directly
 		toSet := reflect.ValueOf(taken)
+		if !toSet.IsValid() {
+			// a nil value taken from an interface-typed field: toSet.Type() would panic
+			switch destValue.Kind() {
+			case reflect.Map, reflect.Slice, reflect.Ptr, reflect.Interface:
+				destValue.Set(reflect.Zero(destValue.Type()))
+				return destValue, nil
+			default:
+				return destValue, fmt.Errorf("mapping entire value: nil is not assignable to %v", destValue.Type())
+			}
+		}
 		if !toSet.Type().AssignableTo(destValue.Type()) {
 			return destValue, fmt.Errorf("mapping entire value has a mismatched type. from=%v, to=%v", toSet.Type(), destValue.Type())
 		}
